@@ -1,7 +1,6 @@
-//! C40: not implemented yet.
+//! C40: decided by the crash engine (crash.rs).
 use crate::Args;
 
-pub fn run(_a: &Args) -> i32 {
-    println!("INCONCLUSIVE property=C40 reason=check not implemented yet");
-    2
+pub fn run(a: &Args) -> i32 {
+    super::crash::run(a, "C40")
 }
